@@ -9,3 +9,6 @@ mod types;
 pub use all_but_one::*;
 pub use soft_spoken_ot::*;
 pub use types::*;
+
+#[cfg(sl_crypto_verif)]
+pub use mul_poly::binary_field_multiply_gf_2_128 as verif_gf128_mul;
